@@ -236,7 +236,7 @@ void drv_alias_qf(int tier, unsigned long seed, const char *extra) {
         if (part[a1] == part[a2] && is_out(f->kinds[pos[a1]]) && is_out(f->kinds[pos[a2]]) && !has(f->name, "swap")) ok = 0;
       /* vclass 2 (floats): operands that hold MORE limbs than their precision, the documented mpf_set_prec_raw use (a variable set at a high
          precision, lowered, then used as source and destination, restored before mpf_clear) */
-      if (ok) for (vclass = 0; vclass < (isF ? 3 : 2); vclass++) for (rep = 0; rep < (vclass == 2 ? (tier ? 8 : 4) : (tier ? 4 : 2)); rep++) {
+      if (ok) for (vclass = 0; vclass < (isF && !has(f->name, "swap") ? 3 : 2); vclass++) for (rep = 0; rep < (vclass == 2 ? (tier ? 20 : 10) : (tier ? 4 : 2)); rep++) {
         arg_t a[8]; int var[8], b, sig, lowered[4] = {0, 0, 0, 0};
         x++; if (!MINE(sh, x)) continue;
         rec_reset("alias_qf", x, seed);
@@ -246,12 +246,18 @@ void drv_alias_qf(int tier, unsigned long seed, const char *extra) {
         memset(a, 0, sizeof a); for (i = 0; i < 8; i++) var[i] = 0;
         for (i = 0; i < np; i++) var[pos[i]] = part[i];
         for (b = 0; b < nblocks; b++) {
-          if (isF && vclass == 2 && (b == 0 || rnd_below(3) == 0)) {      /* 20 or 21 full limbs at 1280 bits, then lowered to 64..640 bits */
+          /* the relation between the operand's length, the lowered precision and the other operands' lengths selects the path (e.g. how many low limbs
+             mpf_div chops and whether quotient and dividend then overlap): enumerated, not drawn -- lowered precision by rep, other operands 1 / 3-4 limbs / any */
+          if (isF && vclass == 2 && b > 0 && rep < 10 && rnd_below(4)) { mp_limb_t buf[8]; int n = rep < 5 ? 1 : 3 + (int)rnd_below(2), k; char *h;
+            rnd_limbs(buf, n, (int)rnd_below(NKINDS)); for (k = 0; k < n; k++) if (!buf[k]) buf[k] = rnd64() | 1;
+            if (n > (int)PREC(Fp[b]) + 1) n = PREC(Fp[b]) + 1;
+            h = hex_of_limbs(buf, n, (int)rnd_below(2)); callf("drv_setf", b, h, (int64_t)((long)rnd_below(7) - 3)); free(h); continue; }
+          if (isF && vclass == 2 && (b == 0 || rnd_below(3) == 0)) {      /* 20 or 21 full limbs at 1280 bits, then lowered */
             mp_limb_t buf[24]; int n = 20 + (int)rnd_below(2), k; char *h;
             callf("mpf_set_prec", b, (uint64_t)1280);
             rnd_limbs(buf, n, (int)rnd_below(NKINDS)); for (k = 0; k < n; k++) if (!buf[k]) buf[k] = rnd64() | 1;
             h = hex_of_limbs(buf, n, (int)rnd_below(2)); callf("drv_setf", b, h, (int64_t)((long)rnd_below(7) - 3)); free(h);
-            callf("mpf_set_prec_raw", b, (uint64_t)precs[rnd_below(4)]); lowered[b] = 1;
+            { static const int low[] = {1216, 1024, 640, 256, 64}; callf("mpf_set_prec_raw", b, (uint64_t)low[rep % 5]); } lowered[b] = 1;
           } else if (isF) setf_rand(b, vclass == 2 ? (int)rnd_below(2) : vclass); else setq_rand(b, vclass); }
         for (i = 0; i < f->nargs; i++) { a[i].kind = f->kinds[i];
           switch (f->kinds[i]) { case K_U: a[i].u = rnd_below(3) ? UIS[rnd_below(12)] : rnd64() >> rnd_below(64); if (has(f->name, "div_ui") && a[i].u == 0) a[i].u = 3; if (has(f->name, "cmp_ui") && !isF && i == 2 && a[i].u == 0) a[i].u = 1;
